@@ -12,6 +12,10 @@ pub struct C19;
 
 impl Prop for C19 {
     type Case = SimCase;
+    fn admissible(c: &SimCase) -> bool {
+        crate::props::sim_admissible(c)
+    }
+
     const ID: &'static str = "C19";
     const RULE: &'static str = "case = C15's domain plus packets-per-second limits from {none, 1, 2, 10, 1000, u32::MAX, 2^32, usize::MAX} and stop conditions (iteration bound and/or trace-length bound, continue-after flag). Each case is simulated unfiltered twice on clones of one queue, then with each of the three filter settings, then (length-bound variant) with a trace-length bound. Non-trivial: machines on both sides and the run produced >=1 padding packet and >=1 blocking or timer event. Distinct = hash of the case.";
 
